@@ -445,22 +445,29 @@ def prefixes_count(alphabet, length):
     return sum(f(n, 0) for n in range(1, length + 1))
 
 
-def _w_tree_direct(seq):
-    div, stats = replay_calls(seq, direct=True)
-    return (seq, div, stats)
+def _w_batch(args):
+    """Worker: replay a batch of sequences, return only aggregates and divergences."""
+    mode, seqs = args
+    n = chk = swallowed = 0
+    counts = {}
+    divs = []
+    for seq in seqs:
+        n += 1
+        if mode in ("T1", "T2"):
+            div, stats = replay_calls(seq, direct=(mode == "T1"))
+            chk += stats[0]
+            swallowed += stats[2]
+            for k, v in stats[1].items():
+                counts[k] = counts.get(k, 0) + v
+        else:
+            div = replay_with(seq, direct=(mode == "W1"))
+        if div:
+            divs.append((div["at"], seq, div))
+    return (n, chk, counts, swallowed, divs)
 
 
-def _w_tree_checks(seq):
-    div, stats = replay_calls(seq, direct=False)
-    return (seq, div, stats)
-
-
-def _w_with_direct(seq):
-    return (seq, replay_with(seq, direct=True))
-
-
-def _w_with_checks(seq):
-    return (seq, replay_with(seq, direct=False))
+def _batches(mode, seqs, size):
+    return [(mode, seqs[i:i + size]) for i in range(0, len(seqs), size)]
 
 
 # ------------------------------------------------------------------------ layer A
@@ -468,6 +475,9 @@ def bfs(ctx, depth_bound):
     alphabet = GATE + tuple("k:" + p for p in PROGRAMS)
     root = Real()
     start = (root.key(), ROOT)
+    k, txt = judge_direct(direct_probe(), False)
+    if k:
+        ctx.violation(k, f"{txt}; history [] (initial state)", {"mode": "calls", "seq": []})
     seen = {start: ()}
     frontier = [start]
     transitions = 0
@@ -514,6 +524,9 @@ def bfs(ctx, depth_bound):
                         samples.append({"history": list(seq), "model_flag": st2[0], "real_flag": real.flag(),
                                         "check": res})
                     continue
+                k, txt = judge_direct(direct_probe(), st2[0])
+                if k:
+                    ctx.violation(k, f"{txt}; history {list(seq)}", {"mode": "calls", "seq": list(seq)})
                 new = (real.key(), st2)
                 if new not in seen:
                     seen[new] = seq
@@ -546,7 +559,7 @@ def define_vs_check(ctx):
                 n += 1
                 k, txt = judge_check(prog, res, b)
                 if k:
-                    ctx.violation(k + ":defined-under-other-setting",
+                    ctx.violation(k + (":defined-under-other-setting" if a != b else ""),
                                   f"{txt}; program was defined with the flag {a} and checked with the flag {b}",
                                   {"mode": "define", "prog": prog, "a": a, "b": b})
     X.EXPERIMENTAL_FEATURES_ENABLED = False
@@ -665,28 +678,28 @@ def run(ctx):
     ctx.say(f"C33 layer A: {a['states']} states, {a['transitions']} transitions, {a['checks']} checks, "
             f"fixpoint={a['fixpoint']} [{time.time() - t0:.1f}s]")
 
-    def fold(results, label):
-        n = 0
-        chk = 0
-        swallowed = 0
+    def fold(mode, seqs, size):
+        """Run one layer in parallel; register the SHORTEST failing history of each key first."""
+        n = chk = swallowed = 0
         counts = {}
-        for seq, div, stats in results:
-            n += 1
-            chk += stats[0]
-            swallowed += stats[2]
-            for k, v in stats[1].items():
+        divs = []
+        for bn, bchk, bcounts, bsw, bdivs in ctx.pmap(_w_batch, _batches(mode, seqs, size), chunk=1):
+            n += bn
+            chk += bchk
+            swallowed += bsw
+            for k, v in bcounts.items():
                 counts[k] = counts.get(k, 0) + v
-            if div:
-                ctx.violation(div["key"], div["what"], {"mode": "calls", "seq": list(seq), "direct": label == "T1"})
+            divs += bdivs
+        for at, seq, div in sorted(divs, key=lambda d: (d[0], d[1])):
+            ctx.violation(div["key"], div["what"],
+                          {"mode": "with" if mode[0] == "W" else "calls", "seq": list(seq)})
         return n, chk, counts, swallowed
 
     gate_seqs = sequences(GATE, L_gate)
-    t1 = ctx.pmap(_w_tree_direct, gate_seqs, chunk=512)
-    n_t1, _, _, sw1 = fold(t1, "T1")
+    n_t1, _, _, sw1 = fold("T1", gate_seqs, 256)
     full_alpha = GATE + tuple("k:" + p for p in TREE_PROGS)
     full_seqs = sequences(full_alpha, L_full)
-    t2 = ctx.pmap(_w_tree_checks, full_seqs, chunk=64)
-    n_t2, chk_t2, counts_t2, sw2 = fold(t2, "T2")
+    n_t2, chk_t2, counts_t2, sw2 = fold("T2", full_seqs, 64)
     ctx.say(f"C33 layer T: {n_t1} gate-only sequences of length {L_gate}, {n_t2} interleaved sequences of "
             f"length {L_full} with {chk_t2} pipeline checks [{time.time() - t0:.1f}s]")
 
@@ -699,20 +712,16 @@ def run(ctx):
     for s in w1_items:
         if len(s) <= 6 and replay_with(s, X=_FakeGate()) is not None:
             raise RuntimeError(f"harness: generated `with` source is wrong for {s}:\n{gen_with_source(s)}")
-    w1 = ctx.pmap(_w_with_direct, w1_items, chunk=512)
+    fold("W1", w1_items, 256)
     w2_items = []
     for n in range(1, L_full + 1):
         w2_items += [s for s in sequences(full_alpha, n) if balanced(s) and any(e.startswith("k:") for e in s)
                      and any(e[0] in "wx" for e in s)]
     for s in w2_items:
-        if replay_with(s, X=_FakeGate()) is not None:
+        if len(s) <= 5 and replay_with(s, X=_FakeGate()) is not None:
             raise RuntimeError(f"harness: generated `with` source is wrong for {s}:\n{gen_with_source(s)}")
-    w2 = ctx.pmap(_w_with_checks, w2_items, chunk=64)
-    exc_paths = 0
-    for seq, div in list(w1) + list(w2):
-        exc_paths += "xe" in seq
-        if div:
-            ctx.violation(div["key"], div["what"], {"mode": "with", "seq": list(seq)})
+    fold("W2", w2_items, 64)
+    exc_paths = sum("xe" in s for s in w1_items) + sum("xe" in s for s in w2_items)
     ctx.say(f"C33 layer W: {len(w1_items)} + {len(w2_items)} balanced sequences as real `with` code [{time.time() - t0:.1f}s]")
 
     n_d = define_vs_check(ctx)
